@@ -212,7 +212,12 @@ class Parser:
         cfg = self.cfg_of(attrs)
         line = self.peek().line
         self.visibility()
-        if self.at('use') or self.at('extern') or self.at('type') or self.at('static'):
+        if self.at('type'):
+            self.next(); name = self.ident(); self.generics_decl()
+            if self.accept('='):
+                ty = self.type(); self.expect(';'); return ('type', name, ty)
+            self.skip_to_semi(); return None
+        if self.at('use') or self.at('extern') or self.at('static'):
             self.skip_to_semi(); return None
         if self.at('macro_rules'):
             self.skip_to_semi_or_block(); return None
@@ -850,7 +855,9 @@ def walk_fns(items, impl=None, mod=None):
     """yield (impl_info, fn) for every function of a parsed file; impl_info = (trait, type) or None"""
     for it in items:
         if it[0] == 'fn': yield impl, it
-        elif it[0] == 'impl': yield from walk_fns(it[4], (it[2], it[3], it[1]), mod)
+        elif it[0] == 'impl':
+            assoc = dict((x[1], x[2]) for x in it[4] if x[0] == 'type')
+            yield from walk_fns(it[4], (it[2], it[3], it[1], assoc), mod)
         elif it[0] == 'mod': yield from walk_fns(it[2], impl, it[1])
 
 if __name__ == '__main__':
